@@ -12,6 +12,7 @@ mod c05;
 mod c06;
 mod c07;
 mod c08;
+mod c11;
 mod c12;
 mod c13;
 mod c14;
@@ -42,6 +43,7 @@ fn gen(prop: &str, seed: u64, n: usize, tier: &str) -> Option<Vec<Case>> {
         "C06" => c06::gen(seed, n, tier),
         "C07" => c07::gen(seed, n, tier),
         "C08" => c08::gen(seed, n, tier),
+        "C11" => c11::gen(seed, n, tier),
         "C12" => c12::gen(seed, n, tier),
         "C13" => c13::gen(seed, n, tier),
         "C14" => c14::gen(seed, n, tier),
@@ -64,6 +66,7 @@ fn run(prop: &str, c: &Case) -> Option<Case> {
         "C06" => c06::run(c),
         "C07" => c07::run(c),
         "C08" => c08::run(c),
+        "C11" => c11::run(c),
         "C12" => c12::run(c),
         "C13" => c13::run(c),
         "C14" => c14::run(c),
@@ -82,6 +85,7 @@ fn judge(prop: &str, c: &Case) -> Vec<String> {
         "C03" => c03::judge(c, &c.outs),
         "C04" => c04::judge(c, &c.outs),
         "C06" => c06::judge(c, &c.outs),
+        "C11" => c11::judge(c, &c.outs),
         "C12" => c12::judge(c, &c.outs),
         "C13" => c13::judge(c, &c.outs),
         "C14" => c14::judge(c, &c.outs),
